@@ -503,6 +503,8 @@ def expect_term(ctx, rule, key, node, got_term, expected, why=""):
     """expected: string or list of accepted strings"""
     got = show(got_term, 10 ** 6) if not isinstance(got_term, str) else got_term
     exps = [expected] if isinstance(expected, str) else list(expected)
+    if ctx._filter is None or ctx._filter(key):
+        ctx.mention(*exps)
     ok = any(term_matches(got, e) for e in exps)
     detail = why
     if not ok:
